@@ -133,7 +133,7 @@ def generate(ctx):
     ctx.exhausted[EXHAUSTIVE[0]] = True
     max_len = 1300
     for _ in range(ctx.pick(250, 2500)):
-        kind = rng.choice(["random", "nines", "tenpow", "tenpow+d", "runs", "chain", "chain", "longchain"])
+        kind = rng.choice(["random", "nines", "tenpow", "tenpow+d", "runs", "chain", "chain", "longchain", "machine"])
         n = rng.choice([1, 2, 3, 5, 17, 18, 19, 20, 21, 40, 100, 300, rng.randint(1, max_len)])
         if kind == "random":
             s = str(rng.randint(1, 9)) + "".join(rng.choice("0123456789") for _ in range(n - 1))
@@ -148,6 +148,9 @@ def generate(ctx):
             while len(s) < n:
                 s += rng.choice("09") * rng.randint(1, 7)
             s = (rng.choice("123456789") + s)[:max(n, 1)]
+        elif kind == "machine":   # neighbourhoods of machine-word and float-mantissa limits
+            base = rng.choice([2 ** 31, 2 ** 32, 2 ** 53, 2 ** 63, 2 ** 64, 10 ** 9, 10 ** 15, 10 ** 16, 10 ** 17, 10 ** 18, 10 ** 19, 10 ** 20])
+            s = str(max(0, base * rng.choice([1, 1, 1, 2, 5, 9]) + rng.randint(-12, 12)))
         elif kind == "chain":
             c = rng.randint(0, 20)
             fill = rng.choice("09")
